@@ -627,7 +627,17 @@ fn run(ch: Chooser, ctx: &RunCtx, mut opts: BasicOpts, mode: u32) -> RunOut {
                     (Some(a), None) => a,
                     _ => continue,
                 };
-                if c.lost.is_empty() && !c.conn.is_closed() && w.now > tc.max(c.created_at) + idle + 3 * sc.pto_ub(&w) + 15 * SEC {
+                // datagrams the peer sent before it crashed may arrive long after (slow paths, late
+                // delivery), and the first ack-eliciting packet sent after each restarts the timer
+                let last_restart = {
+                    let tap = w.tap.lock().unwrap();
+                    let la = tap.pkts.iter().enumerate().filter(|(_, p)| !p.enc && p.ok && p.inc == c.inc).last().map(|(i, p)| (i, p.t));
+                    match la {
+                        Some((i, t)) => tap.pkts.iter().skip(i + 1).filter(|p| p.enc && p.inc == c.inc).find(|p| wire::frames(&p.payload).0.iter().any(|f| f.ack_eliciting())).map_or(t, |p| p.t.max(t)),
+                        None => 0,
+                    }
+                };
+                if c.lost.is_empty() && !c.conn.is_closed() && w.now > tc.max(c.created_at).max(last_restart) + idle + 3 * sc.pto_ub(&w) + 15 * SEC {
                     let (k, d) = ("silent-peer-never-timed-out".to_string(), format!("inc{}: peer crashed at {}, idle timeout {}, still no TimedOut at {}", c.inc, fmt_t(tc), fmt_t(idle), fmt_t(w.now)));
                     w.violate(k, d);
                     break;
